@@ -2,6 +2,7 @@ package app
 
 import (
 	"fmt"
+	"strings"
 
 	"visim/tape"
 )
@@ -38,6 +39,9 @@ type Profile struct {
 	NoCatchNode  bool   // do not define _catch (never used for well-formed apps)
 	SingleRoute  bool   // after a HALT exactly one candidate: one "INCMP t *" or one MOVE t
 	NegMapProbe  bool   // templates may reference a symbol mapped only before the last move (C05)
+	RelWeight    int    // weight of relative targets against 6 for named ones (default 3)
+	EndWeight    int    // weight of each kind of end node against 6 for menu nodes (default 1)
+	InputWeight  int    // weight of input-consuming nodes (HALT .. MOVE) against 6 for menu nodes (default 2)
 }
 
 var langPool = []string{"nor", "swa", "fra", "deu"}
@@ -119,12 +123,19 @@ func Generate(t *tape.Tape, p Profile) *App {
 		endW := 0
 		if p.EndNodes {
 			endW = 1
+			if p.EndWeight > 0 {
+				endW = p.EndWeight
+			}
+		}
+		inW := 2
+		if p.InputWeight > 0 {
+			inW = p.InputWeight
 		}
 		actW := 2
 		if i == n-1 && !p.RelTargets {
 			actW = 0 // an action node needs somewhere to go
 		}
-		k := t.Weighted(6, 2, actW, endW, endW)
+		k := t.Weighted(6, inW, actW, endW, endW)
 		gn[i].kind = k
 		if k == KAction {
 			// forward (named higher) or back (relative)
@@ -222,6 +233,9 @@ func Generate(t *tape.Tape, p Profile) *App {
 		relW := 0
 		if p.RelTargets {
 			relW = 3
+			if p.RelWeight > 0 {
+				relW = p.RelWeight
+			}
 		}
 		brW := 0
 		if browse {
@@ -471,6 +485,20 @@ func Generate(t *tape.Tape, p Profile) *App {
 			}
 		}
 		nd.Tpl[""] = makeTpl(t, p, nd.Name, "", mapped, sink)
+		if p.NegMapProbe && len(a.Ext) > 0 && i > 0 && t.Chance(1, 6) {
+			// reference a symbol this node does not map: the render must fail whatever was mapped before the move
+			x := a.Ext[t.Int(len(a.Ext))].Name
+			isMapped := false
+			for _, in := range code {
+				if (in.Op == MAP || in.Op == RELOAD) && in.A == x {
+					isMapped = true
+				}
+			}
+			if !isMapped {
+				nd.Tpl[""] = strings.TrimSuffix(nd.Tpl[""], "$") + " NEG=[{{." + x + "}}]$"
+				nd.NegProbe = x
+			}
+		}
 		for _, lg := range a.Langs {
 			if t.Chance(1, 2) {
 				nd.Tpl[lg] = makeTpl(t, p, nd.Name, lg, mapped, sink)
